@@ -72,7 +72,7 @@ Proof.
   intros H1 H2 NE. unfold backs. destruct (is_equivocator id ms); [lia|].
   destruct (votes_of id ms) as [|a r]; [lia|].
   destruct (is_eq_or_desc hs c1 (p_hash a)) eqn:E1; destruct (is_eq_or_desc hs c2 (p_hash a)) eqn:E2; try lia.
-  exfalso. apply (is_eq_or_desc_iff hs) in E1, E2. eapply children_disjoint; eauto.
+  exfalso. apply (is_eq_or_desc_iff hs) in E1, E2. exact (children_disjoint cur c1 c2 (p_hash a) H1 H2 NE E1 E2).
 Qed.
 
 Lemma two_children_weight cur c1 c2 :
@@ -80,11 +80,14 @@ Lemma two_children_weight cur c1 c2 :
   W ms c1 + W ms c2 <= vs_total vs + (vs_total vs - vs_threshold vs).
 Proof.
   intros H1 H2 NE.
-  assert (S : W ms c1 + W ms c2 <=
-              fold_right (fun id acc => vs_weight vs id + acc) 0 (voter_ids ms)
-              + fold_right (fun id acc => (if is_equivocator id ms then vs_weight vs id else 0) + acc) 0 (voter_ids ms)).
-  { unfold spec_weight. induction (voter_ids ms) as [|id l IH]; cbn; [lia|].
+  assert (G : forall l,
+              fold_right (fun id acc => backs vs hs ms c1 id + acc) 0 l
+              + fold_right (fun id acc => backs vs hs ms c2 id + acc) 0 l <=
+              fold_right (fun id acc => vs_weight vs id + acc) 0 l
+              + fold_right (fun id acc => (if is_equivocator id ms then vs_weight vs id else 0) + acc) 0 l).
+  { induction l as [|id l IH]; cbn; [lia|].
     pose proof (backs_two cur c1 c2 id H1 H2 NE). lia. }
+  pose proof (G (voter_ids ms)) as S. unfold spec_weight.
   pose proof (Hbound (voter_ids ms) (NoDup_nodupN _)). lia.
 Qed.
 
